@@ -377,6 +377,16 @@ def stepOp (s : St) (toks : List String) : St × String :=
         match parts with
         | some parts => setA (a.concat parts)
         | none => (s, "bad-op")
+      | "ajoin", ps =>
+        let parts : Option (List Part) := ps.mapM (fun p =>
+          match regOf 'A' NA p, tupleOf p, valOf p with
+          | some j, _, _ => some (if j == r then Part.self else Part.other (s.A.getD j default).items (s.A.getD j default).isNull)
+          | _, some l, _ => some (Part.many l)
+          | _, _, some v => some (Part.one v)
+          | _, _, _ => none)
+        match parts with
+        | some parts => setA (a.join parts)
+        | none => (s, "bad-op")
       | "afill", [] => setA (a.fill 0)
       | "afill", [v] => match valOf v with
         | some v => setA (a.fill v)
